@@ -2,6 +2,7 @@
 #include <symengine/complex_double.h>
 #include <symengine/constants.h>
 #include <symengine/infinity.h>
+#include <symengine/nan.h>
 #include <symengine/functions.h>
 #include <symengine/symengine_exception.h>
 #include <symengine/complex_mpc.h>
@@ -97,6 +98,8 @@ RCP<const Basic> Infty::conjugate() const
 
 RCP<const Number> Infty::add(const Number &other) const
 {
+    if (is_a<NaN>(other))
+        return Nan;
     if (not is_a<Infty>(other))
         return rcp_from_this_cast<Number>();
 
@@ -131,7 +134,7 @@ RCP<const Number> Infty::mul(const Number &other) const
 
 RCP<const Number> Infty::div(const Number &other) const
 {
-    if (is_a<Infty>(other)) {
+    if (is_a<Infty>(other) or is_a<NaN>(other)) {
         return Nan;
     } else {
         if (other.is_positive())
